@@ -20,6 +20,18 @@ SEEDS = {
            "a (channel, pitch) re-triggered while sounding, receiving fewer note-offs than note-ons and still open at the end of the sequence"),
  "C01-a": ("C01", "tokenise: `scaled = numerator * (8 // denominator)` (floor division) instead of true division: x/16 signatures scale to 0 and are rejected",
            "a piece with a time signature of denominator 16 expressible in eighths (6/16)"),
+ "C06-a": ("C06", "quantise_note_lengths: the per-channel `note_occurrences` table hoisted out of the channel loop into one table keyed by pitch only, so the last note of a pitch in one channel treats a note of another channel as its next occurrence",
+           "two channels containing the same pitch where the later channel's onset falls before onset + best duration of the earlier channel's last note of that pitch"),
+ "C09-a": ("C09", "RelativeSequence.split: the NOTE_ON re-opening a sounding note in the next piece built with channel=msg.channel (the straddling WAIT's channel)",
+           "a track with notes on more than one channel, a note held across a bar line, the first event after the bar line on another channel"),
+ "C02-a": ("C02", "tokenise: `elif self.flag_fuse_value:` turned into a bare `else:`; with value not fused, running values on and an unchanged value the note token gets a fused value part the vocabulary does not contain",
+           "flag_fuse_value=False with flag_running_values=True and two consecutive notes of equal duration"),
+}
+
+INITIALLY_MISSED = {
+ "C18-a": "missed by the first version of the C18 check (frame rules only); the sorted-list invariant rule SORT (and ABS-SORTED in C04) was added",
+ "C07-a": "missed by the first version of the C07 check; the STACK rules (keep/skip by number of open notes, LIFO pop) were added",
+ "C09-a": "missed by the first version of the C09 check (caught by C08's RESTRIKE only); C09 now includes the split boundary rules KEY/CUT/RESTRIKE",
 }
 
 def main():
@@ -44,6 +56,7 @@ def main():
                 "confirmed_by_me": confirm,
                 "what_i_ran": [f"tools/confirm_seed.sh <worktree> {sid} {prop}  (demo with change, demo without change, full unedited suite with change)",
                                f"git -C /repo apply seeded/{sid}/patch.diff; ./check {prop} --tier quick; git -C /repo checkout -- ."],
+                "initially_missed": INITIALLY_MISSED.get(sid, False),
                 "check_exit_code": r.returncode, "detected": r.returncode == 1, "detected_by_rules": rules,
                 "first_report": lines[1].strip()[:300] if len(lines) > 1 else ""}
         json.dump(meta, open(f"{d}/meta.json", "w"), indent=1)
